@@ -3,6 +3,7 @@ package c11
 import (
 	"bytes"
 	"fmt"
+	"math"
 	"strings"
 	"testing"
 
@@ -23,6 +24,7 @@ type Opts struct {
 	NotCheckReq    bool `json:"not_check_req"`
 	WriteDefault   bool `json:"write_default"`
 	NativeSkip     bool `json:"native_skip"`
+	UseDefault     bool `json:"use_default_value"` // parse option: IDL defaults are what WriteDefault fills in
 }
 
 // Case: U holds the source structs S* and the derived target structs T*; U.Root is the
@@ -79,7 +81,11 @@ func project(u *tm.Universe, v *tm.Value, from, to *tm.Type, o Opts) (*tm.Value,
 					return nil, &projErr{fmt.Sprintf("required target field %d of %s is absent", tf.ID, ts.Name)}
 				case tm.ReqDefault:
 					if o.WriteDefault {
-						out.Fields = append(out.Fields, tm.FieldVal{ID: tf.ID, V: tm.ZeroValue(tf.T)})
+						fill := tm.ZeroValue(tf.T)
+						if o.UseDefault && tf.Default != nil {
+							fill = tf.Default.Clone()
+						}
+						out.Fields = append(out.Fields, tm.FieldVal{ID: tf.ID, V: fill})
 					}
 				}
 			}
@@ -230,7 +236,7 @@ func orderOK(src, got *tm.Value, ty *tm.Type, u *tm.Universe) string {
 }
 
 func check(c *pbt.Ctx, cs Case) {
-	comp, err := tm.CompileUniverse(cs.U, thrift.Options{})
+	comp, err := tm.CompileUniverse(cs.U, thrift.Options{UseDefaultValue: cs.O.UseDefault})
 	if err != nil {
 		c.Failf("idl-error", "dynamicgo rejects generated IDL: %v\n%s", err, cs.U.Render())
 	}
@@ -348,7 +354,7 @@ func genCase(t *rapid.T) Case {
 				continue
 			}
 			used[id] = true
-			xt := &tm.Type{K: []tm.Kind{tm.BOOL, tm.I32, tm.STRING, tm.DOUBLE, tm.LIST, tm.MAP, tm.STRUCT}[rapid.IntRange(0, 6).Draw(t, "xk")]}
+			xt := &tm.Type{K: []tm.Kind{tm.BOOL, tm.I32, tm.STRING, tm.DOUBLE, tm.LIST, tm.MAP, tm.STRUCT, tm.I64, tm.I16, tm.BYTE}[rapid.IntRange(0, 9).Draw(t, "xk")]}
 			switch xt.K {
 			case tm.LIST:
 				xt.Elem = &tm.Type{K: tm.I64}
@@ -357,7 +363,28 @@ func genCase(t *rapid.T) Case {
 			case tm.STRUCT:
 				xt.Ref = sd.Name
 			}
-			td.Fields = append(td.Fields, tm.FieldDef{ID: id, Name: fmt.Sprintf("x_%d", id), T: xt, Req: rapid.IntRange(0, 4).Draw(t, "xreq") % 3})
+			xf := tm.FieldDef{ID: id, Name: fmt.Sprintf("x_%d", id), T: xt, Req: rapid.IntRange(0, 4).Draw(t, "xreq") % 3}
+			if xf.Req == tm.ReqDefault && rapid.Bool().Draw(t, "xdefault") {
+				// an IDL default (a literal, or an enum constant on an integer field of any width)
+				switch xt.K {
+				case tm.BOOL:
+					xf.Default = &tm.Value{K: tm.BOOL, B: true}
+				case tm.STRING:
+					xf.Default = &tm.Value{K: tm.STRING, S: []byte("dflt")}
+				case tm.DOUBLE:
+					xf.Default = &tm.Value{K: tm.DOUBLE, F: math.Float64bits(2.5)}
+				case tm.I32, tm.I64, tm.I16, tm.BYTE:
+					xf.Default = &tm.Value{K: xt.K, I: int64(rapid.IntRange(-100, 100).Draw(t, "xdefInt"))}
+					if rapid.Bool().Draw(t, "xdefEnum") {
+						c := []struct {
+							n string
+							v int64
+						}{{"VE.V0", 0}, {"VE.V1", 1}, {"VE.V7", 7}, {"VE.V100", 100}}[rapid.IntRange(0, 3).Draw(t, "xdefEnumC")]
+						xf.Default, xf.DefaultRef = &tm.Value{K: xt.K, I: c.v}, c.n
+					}
+				}
+			}
+			td.Fields = append(td.Fields, xf)
 		}
 		u.Structs = append(u.Structs, td)
 	}
@@ -391,12 +418,13 @@ func genCase(t *rapid.T) Case {
 		// (WriteDefault together with NotCheckRequireNess is not drawn: the statement does not say which wins)
 		o.WriteDefault = rapid.Bool().Draw(t, "writeDefault")
 	}
+	o.UseDefault = rapid.Bool().Draw(t, "useDefaultValue")
 	return Case{U: u, Src: src, Dst: dst, V: v, O: o, Same: same}
 }
 
 var Prop = pbt.Register(pbt.Prop[Case]{
 	Name:  "TestThriftCut",
-	Rule:  "one IDL with source structs S* and derived target structs T* (random field subsets/supersets at every depth incl. inside list/set elements, map keys and values, recursive types; target types share source sub-structs or use derived ones; identical descriptor in 10% of cases; requiredness redrawn on the target) + conforming source value (optionally with an unknown field); MarshalTo output decoded by the reference decoder must equal the model projection (source order for source fields, zero-filled default fields iff WriteDefault), absent required target field => ErrMissRequiredField unless NotCheckRequireNess, unknown field + DisallowUnknow => error; non-trivial = source depth >= 2",
+	Rule:  "one IDL with source structs S* and derived target structs T* (random field subsets/supersets at every depth incl. inside list/set elements, map keys and values, recursive types; target types share source sub-structs or use derived ones; identical descriptor in 10% of cases; requiredness redrawn on the target) + conforming source value (optionally with an unknown field); MarshalTo output decoded by the reference decoder must equal the model projection (source order for source fields, default-requiredness fields the source lacks filled iff WriteDefault: with the IDL default (literal or enum constant, on integer fields of every width) when the descriptor was parsed with UseDefaultValue, else with the zero value), absent required target field => ErrMissRequiredField unless NotCheckRequireNess, unknown field + DisallowUnknow => error; non-trivial = source depth >= 2",
 	Gen:   genCase,
 	Check: check,
 })
